@@ -40,8 +40,12 @@ class Observable:
                 f"from {old_value} to {new_value}"
             )
         )
-        for observer in self._observers:
-            observer(sender, old_value, new_value)
+        # Iterate over a copy so that an observer that unwatches (itself or another)
+        # doesn't make a later observer miss this change, but never call one that
+        # has been removed while the notification is being delivered
+        for observer in list(self._observers):
+            if observer in self._observers:
+                observer(sender, old_value, new_value)
 
     @property
     def has_observers(self) -> bool:
